@@ -185,3 +185,34 @@ def decBatch (bs : Bytes) : Option WireBatch := do
          maxTimestamp, producerId, producerEpoch, baseSequence, records }
 
 end Kio.Spec
+
+namespace Kio.Spec
+open Kio
+
+/-- what a writer of *new* batches must derive from the records (C17): base offset and base
+    timestamp from the first record, last offset delta from the last, max timestamp over all -/
+structure NewBatchParams where
+  producerId : Int
+  producerEpoch : Int
+  partitionLeaderEpoch : Int
+  baseSequence : Int
+  attributes : Int
+  records : List WireRecord       -- with absolute offsets and millisecond timestamps
+
+def deriveBatch (p : NewBatchParams) : Option WireBatch :=
+  match p.records with
+  | [] => none
+  | first :: rest =>
+    let last := (first :: rest).getLast?.getD first
+    some { baseOffset := first.offset
+           partitionLeaderEpoch := p.partitionLeaderEpoch
+           attributes := p.attributes
+           lastOffsetDelta := last.offset - first.offset
+           baseTimestamp := first.timestampMs
+           maxTimestamp := (rest.map (·.timestampMs)).foldl max first.timestampMs
+           producerId := p.producerId
+           producerEpoch := p.producerEpoch
+           baseSequence := p.baseSequence
+           records := first :: rest }
+
+end Kio.Spec
